@@ -21,12 +21,14 @@ PROPS["C15"] = {
         Job("parse", "H_rawtext", "0..4", workers=8),
         Job("parse", "H_rawtextBytes", "1..3", workers=8),
         Job("soyhtml", "H_textlex", "0..3,0..2", workers=16, maxfan=16),
+        Job("soyhtml", "H_textlex", "0..2,3..9", workers=16, maxfan=16, note="after commands holding comments"),
         Job("soyhtml", "H_literal", "0..3", workers=8, maxfan=16),
         Job("parse", "H_rawtext", "5", tier="thorough", workers=16),
         Job("soyhtml", "H_textlex", "4,0..2", tier="thorough", workers=16, maxfan=16),
         Job("soyhtml", "H_textlex", "5,0", tier="thorough", workers=16, maxfan=16),
+        Job("soyhtml", "H_textlex", "3,3..9", tier="thorough", workers=16, maxfan=16, note="after commands holding comments"),
     ],
-    "bounds_quick": "rawtext(s,trimBefore,trimAfter) vs the line-joining rule: every ASCII string (bytes 1..127) of length <= 4 with both flags symbolic; order-preservation of non-whitespace bytes over all 256 byte values for length <= 3; the whole chain lexer -> text/comment tokens -> rawtext -> render for every template body of <= 3 characters over {a < > space LF CR / * :} between prints, at template start and at template end (comment-free: exact output; with comments: exactly the non-whitespace characters outside comments; unclosed block comment: error); literal blocks of <= 3 characters over {a space { } LF / < *} and all special-character commands",
+    "bounds_quick": "rawtext(s,trimBefore,trimAfter) vs the line-joining rule: every ASCII string (bytes 1..127) of length <= 4 with both flags symbolic; order-preservation of non-whitespace bytes over all 256 byte values for length <= 3; the whole chain lexer -> text/comment tokens -> rawtext -> render for every template body of <= 3 characters over {a < > space LF CR / * :} between prints, at template start and at template end, and (<= 2 characters; thorough 3) after 7 commands that hold comments of their own (between call params, before a switch case, inside if/foreach/let/param blocks) (comment-free: exact output; with comments: exactly the non-whitespace characters outside comments; unclosed block comment: error); literal blocks of <= 3 characters over {a space { } LF / < *} and all special-character commands",
     "bounds_thorough": "as quick, ASCII length <= 5; template bodies of 4 characters in all contexts and 5 between prints",
     "outside": "longer text runs",
     "assumptions": ["refRawtext (harness) is the statement's rule written over maximal whitespace runs"],
@@ -40,14 +42,14 @@ PROPS["C03"] = {
         Job("soyhtml", "H_escape", "0..3", workers=8),
         Job("soyhtml", "H_decision", "0..3,0..3,0..8,0", workers=16),
         Job("soyhtml", "H_decision", "0..1,0..1,0..8,1..4", workers=16),
-        Job("soyhtml", "H_decision", "0..3,0..3,0..3,4..6", workers=16, note="cross-namespace calls"),
+        Job("soyhtml", "H_decision", "0..3,0..3,0..3,4..8", workers=16, note="cross-namespace and cross-file calls"),
         Job("soyhtml", "H_nonString", "0..4", workers=4),
         Job("soyhtml", "H_escape", "4..5", tier="thorough", workers=16),
-        Job("soyhtml", "H_decision", "0..3,0..3,0..8,1..6", tier="thorough", workers=16, note="all modes in all contexts"),
+        Job("soyhtml", "H_decision", "0..3,0..3,0..8,1..8", tier="thorough", workers=16, note="all modes in all contexts"),
     ],
-    "bounds_quick": "htmlEscapeString on all strings of <= 3 bytes (256 values each); evalPrint escape decision for $x = any 2 non-NUL bytes under 4x4 namespace/template autoescape attributes x 9 directive chains (direct print) and 2x2 modes x 9 chains in let-content, param-content, msg-placeholder and cross-namespace call contexts; cross-namespace calls from a caller whose template / namespace is autoescape=false / true into a callee with each of the 4x4 namespace/template attributes x 4 chains (the callee's own mode decides); non-string values",
+    "bounds_quick": "htmlEscapeString on all strings of <= 3 bytes (256 values each); evalPrint escape decision for $x = any 2 non-NUL bytes under 4x4 namespace/template autoescape attributes x 9 directive chains (direct print) and 2x2 modes x 9 chains in let-content, param-content, msg-placeholder and cross-namespace call contexts; cross-namespace calls from a caller whose template / namespace is autoescape=false / true into a callee with each of the 4x4 namespace/template attributes x 4 chains (the callee's own mode decides), also within one namespace spread over two files with different declarations, in both orders of addition; non-string values",
     "bounds_thorough": "escaper <= 5 bytes; all 16 mode pairs in every context",
-    "outside": "strings longer than the bound; user-registered directives; changeNewlineToBr (regexp) is checked with concrete strings under C16; contextual escaping beyond what soy implements",
+    "outside": "strings longer than the bound; user-registered directives; changeNewlineToBr is checked under C16 (its regexp replacement through a validated Go model of the pattern); contextual escaping beyond what soy implements",
     "assumptions": ["decodeEntities (harness) is the reference decoder of the five character references"],
     "level_text": "Bounded symbolic model checking of the real escaper and of the real parse+render pipeline around evalPrint: the printed value is symbolic, every path of the escaping code is discharged by the solver, so value-dependent holes (a special character that slips through only for certain values) are found or excluded within the bound.",
     "level_note": "Bounds: value length, directive chains from the built-in table, contexts listed in evidence. Trusted: go/ssa, gosym (native replay), z3, reference decoder.",
@@ -74,16 +76,16 @@ PROPS["C12"] = {
 def parse_jobs():
     return [
         Job("parse", "H_validFile", "", workers=1),
-        Job("parse", "H_parseCtx", "0..59,0..1,false", workers=16, maxsteps=300000),
+        Job("parse", "H_parseCtx", "0..71,0..1,false", workers=16, maxsteps=300000),
         Job("parse", "H_exprCtx", "0..21,0..2,false", workers=16, maxsteps=300000),
-        Job("parse", "H_parseCtx", "0..59,2,false", workers=16, maxsteps=300000, note="k=2"),
+        Job("parse", "H_parseCtx", "0..71,2,false", workers=16, maxsteps=300000, note="k=2"),
         Job("parse", "H_prefix", "0..738,0", workers=16, maxsteps=600000, note="every prefix"),
         Job("parse", "H_prefix", "0..738,1", tier="thorough", workers=16, maxsteps=600000, note="every prefix + 1 symbolic byte"),
-        Job("parse", "H_parseCtx", "0..59,3,true", tier="thorough", workers=16, maxsteps=300000, note="k=3 ascii"),
+        Job("parse", "H_parseCtx", "0..71,3,true", tier="thorough", workers=16, maxsteps=300000, note="k=3 ascii"),
         Job("parse", "H_exprCtx", "0..21,3,true", tier="thorough", workers=16, maxsteps=300000, note="k=3 ascii"),
     ]
 
-PARSE_BOUNDS_Q = "parse.SoyFile on 60 concrete lexer/parser contexts followed by k <= 2 symbolic bytes (all 256 values); parse.Expr on 22 contexts with k <= 2; every prefix of a 738-byte valid file using every command; step bound 300000 (600000 for prefixes) SSA instructions per path acts as the unwinding assertion"
+PARSE_BOUNDS_Q = "parse.SoyFile on 72 concrete lexer/parser contexts (incl. every quoted attribute value, empty values included) followed by k <= 2 symbolic bytes (all 256 values); parse.Expr on 22 contexts with k <= 2; every prefix of a 738-byte valid file using every command; step bound 300000 (600000 for prefixes) SSA instructions per path acts as the unwinding assertion"
 PARSE_BOUNDS_T = PARSE_BOUNDS_Q + "; thorough adds k = 3 over ASCII for all contexts and every prefix + 1 symbolic byte"
 
 PROPS["C05"] = {
@@ -153,6 +155,7 @@ PROPS["C01"] = {
         Job("soyhtml", "H_ternary", "0..8,0..8", workers=8),
         Job("soyhtml", "H_print", "0..8", workers=8),
         Job("soyhtml", "H_dataref", "0..5,0..8", workers=8),
+        Job("soyhtml", "H_datarefChain", "0..5,0..5,-1..5,0..12", workers=16),
         Job("soyhtml", "H_func", "0..13,0..3,0..8,0..8,0..2", workers=16, maxsteps=400000, hang_timeout=4.0, allow_unsupported=(r"math\.Pow\(symbolic\)",)),
         Job("parse", "H_minus", "false", workers=4),
         Job("parse", "H_minus", "true", workers=4),
@@ -186,8 +189,9 @@ PROPS["C06"] = {
         Job("soyhtml", "H_renderFail", "0..11,0..2,true", workers=8),
         Job(".", "H_globals", "0..28,true", workers=8),
         Job(".", "H_globals", "0..28,false", workers=4),
+        Job(".", "H_globalsSym", "0..23,0..2", workers=16, maxsteps=400000),
     ],
-    "bounds": "every built-in function (and an unknown one) with 0..3 arguments of any of 9 value kinds (third argument int/string/undefined), ints in [-4,4]; every binary operator on every operand kind pair; every built-in print directive (and an unknown one) with 0..2 arguments of any kind on a value of any kind (json only on concrete-shaped values); soyhtml.EvalExpr on every operator with an undefined/erroring/well-typed left operand; 12 failing commands at call depth 0..2 in a bundle with and without a second file that redefines the same template names; soy.ParseGlobals on 29 valid/erroring/malformed definitions (incl. truncated escapes and unterminated literals); step bound 400000 as unwinding assertion",
+    "bounds": "every built-in function (and an unknown one) with 0..3 arguments of any of 9 value kinds (third argument int/string/undefined), ints in [-4,4]; every binary operator on every operand kind pair; every built-in print directive (and an unknown one) with 0..2 arguments of any kind on a value of any kind (json only on concrete-shaped values); soyhtml.EvalExpr on every operator with an undefined/erroring/well-typed left operand; 12 failing commands at call depth 0..2 in a bundle with and without a second file that redefines the same template names; soy.ParseGlobals on 29 valid/erroring/malformed definitions (incl. truncated escapes and unterminated literals) and on 24 expression contexts followed by 0..2 symbolic bytes of any value (line breaks included); step bound 400000 as unwinding assertion",
     "outside": "user-registered functions and directives; data recursion deeper than 2; file-system loading",
     "assumptions": ["rand.Int63n returns an arbitrary value in range"],
     "level_text": "Bounded symbolic model checking: ill-typed use is the input space - argument kinds are enumerated, payloads symbolic; an escaping panic, a deadlock or a path exceeding the step bound is an engine verdict that is then reproduced natively.",
@@ -200,6 +204,8 @@ PROPS["C08"] = {
         Job("soyhtml", "H_pure", "0..2,0..1,false,0..5", workers=8),
         Job("soyhtml", "H_pure", "0..2,0..1,true,0..5", workers=8),
         Job("soyhtml", "H_pure", "3,0,false,0..6", workers=8, note="through a translating catalogue"),
+        Job(".", "H_renderAfterJS", "0..1,false", workers=8, note="JS generation between renders"),
+        Job(".", "H_renderAfterJS", "0..1,true", workers=8, note="JS generation between renders"),
     ],
     "bounds": "3 two-file template sets covering print, let, if, foreach/ifempty, call with data=all / data=$m / value and content params, msg, css, switch, map and list literals, functions, $ij, and a render that fails half way; data: a symbolic 1-byte string, list of length 0 or 2, nested map; with and without an obligatory print directive; a first render, then optionally a render that fails inside a let-content / param-content / log block or a print, or a render into a writer that starts failing at a symbolically chosen write, then two more renders of the first template, all under frozen memory (one inductive step: no render writes what the next one reads; sync.Pool is modelled as a free list whose contents flow between renders); every later render must write the bytes of the first",
     "outside": "user directives/functions that themselves mutate their arguments; templates outside the dictionary; soyjs generation is checked under C09",
@@ -216,6 +222,8 @@ PROPS["C09"] = {
         Job("soyhtml", "H_pure", "0..2,0..1,false,0..5", workers=8),
         Job("soyhtml", "H_pure", "0..2,0..1,true,0..5", workers=8),
         Job("soyhtml", "H_pure", "3,0,false,0..6", workers=8, note="through a translating catalogue"),
+        Job(".", "H_renderAfterJS", "0..1,false", workers=8, note="JS generation between renders"),
+        Job(".", "H_renderAfterJS", "0..1,true", workers=8, note="JS generation between renders"),
         Job("soyjs", "H_jsPure", "0..2,false", workers=2),
         Job("soyjs", "H_jsPure", "0..2,true", workers=2),
         Job("parse", "H_parseRace", "0..8", workers=8, note="happens-before check of scanner/parser memory accesses"),
@@ -237,8 +245,8 @@ PROPS["C13"] = {
         Job("soyjs", "H_jsAfterFailure", "0..2,0..2,true", workers=4, note="generation after a failed generation"),
         Job("soyjs", "H_jsOrder", "0..2,-1..3,false", workers=8, timeout=300),
         Job("soyjs", "H_jsOrder", "0..2,-1..3,true", workers=8, timeout=300),
-        Job(".", "H_bundle", "0..7,0", workers=8, timeout=400, per_map_site=r"^(ast|data|parse|parsepasses|soyhtml|soyjs|soymsg|template|bundle|globals)"),
-        Job(".", "H_bundle", "0..7,1..5", workers=8, timeout=400, note="file insertion orders"),
+        Job(".", "H_bundle", "0..12,0", workers=8, timeout=400, per_map_site=r"^(ast|data|parse|parsepasses|soyhtml|soyjs|soymsg|template|bundle|globals)"),
+        Job(".", "H_bundle", "0..12,1..5", workers=8, timeout=400, note="file insertion orders"),
     ],
     "bounds": "real soy.NewBundle().AddTemplateString(..).AddGlobalsMap(..).Compile() + Tofu rendering + soyjs.Write (ES5 and ES6) for 8 bundles, each compiled twice from the same Bundle object and a third time through CompileToTofu (valid with messages/globals/map literals/cross-file calls; rejected by the data-ref checker, the parser, the globals pass; two independent errors; duplicate template name; header params without soydoc); every map-range site reached in the soy packages is given an arbitrary iteration order, one site at a time (all permutations up to 5 keys; for larger maps an arbitrary key first and an arbitrary key last); all 6 insertion orders of up to 3 files",
     "outside": "two or more loops permuted simultaneously (order dependence that needs a particular combination); bundles outside the dictionary; file-system loading and the watcher",
@@ -271,9 +279,9 @@ PROPS["C19"] = {
         Job("soyhtml", "H_rendererr", "0..2,4,false", workers=8),
         Job("soyhtml", "H_rendererr", "0..2,4,true", workers=8, note="both files in one namespace"),
         Job("soyhtml", "H_writeerrpos", "3", workers=8),
-        Job("parse", "H_parseCtx", "0..59,0..1,false", workers=16, maxsteps=300000),
+        Job("parse", "H_parseCtx", "0..71,0..1,false", workers=16, maxsteps=300000),
         Job("parse", "H_exprCtx", "0..21,0..1,false", workers=16, maxsteps=300000),
-        Job("parse", "H_parseCtx", "0..59,2,false", tier="thorough", workers=16, maxsteps=300000, note="k=2"),
+        Job("parse", "H_parseCtx", "0..71,2,false", tier="thorough", workers=16, maxsteps=300000, note="k=2"),
         Job("parse", "H_errpos", "0..11,0..2,7", tier="thorough", workers=16, note="7 lines"),
     ],
     "bounds": "parse errors: 12 fault kinds injected on a symbolically chosen line of a 4-line (thorough 7) template body with LF, CRLF and blank-line separators: file name, exact line (point faults) or line within [construct start, end of input] (constructs left open), same numbers in the message text; on the C05 context harnesses (arbitrary symbolic bytes) every parse error carries the given file name and a line within 1..1+count(LF). Render errors: failing command on a symbolically chosen line at call depth 0..2 across two files (in different namespaces and in one shared namespace); render errors caused by a write failure at a symbolically chosen write of a 3-line template",
@@ -291,17 +299,17 @@ PROPS["C16"] = {
         Job("soyhtml", "H_truncate", "0..3,0..5,0..2", workers=16),
         Job("soyhtml", "H_truncate", "5,4,0..1", workers=16, note="ellipsis with multi-byte characters"),
         Job("soyhtml", "H_wordBreaks", "0..3,1..3", workers=16),
-        Job("soyhtml", "H_newlineToBr", "0..3", workers=8, maxfan=300),
+        Job("soyhtml", "H_newlineToBr", "0..4", workers=8, maxfan=300),
         Job("soyhtml", "H_chain", "0..4", workers=8),
         Job("soyhtml", "H_json", "0..3,0..2", workers=16),
         Job("soyhtml", "H_json", "0,3", tier="thorough", workers=16),
         Job("soyhtml", "H_escapeUri", "3", tier="thorough", workers=16),
         Job("soyhtml", "H_escapeJs", "3,0..4", tier="thorough", workers=16),
         Job("soyhtml", "H_truncate", "4..5,0..8,0..2", tier="thorough", workers=16),
-        Job("soyhtml", "H_newlineToBr", "4", tier="thorough", workers=16, maxfan=300),
+        Job("soyhtml", "H_newlineToBr", "5", tier="thorough", workers=16, maxfan=300),
     ],
-    "bounds_quick": "escapeUri: every string of <= 2 bytes (all 256 values); escapeJsString: <= 2 ASCII bytes (incl. controls) optionally with one of U+00E9/U+2028/U+2029/U+FEFF; truncate: valid UTF-8 strings of <= 3 bytes, limit 0..5, ellipsis default/true/false, and 5-byte strings with limit 4 and the ellipsis on; insertWordBreaks:k (k 1..3) on <= 3 ASCII bytes; changeNewlineToBr on every string of length <= 3 over {a,<,&,LF,CR,space} (regexp runs natively on concrete text); 5 chains of two directives through parser and renderer; |json on strings of <= 2 bytes of valid UTF-8 (all byte values), alone and inside lists/maps with booleans, null, undefined and small ints, against a reference JSON parser (encoding/json's string encoding is a Go model validated natively against json.Marshal; structure and key order are produced as encoding/json documents them)",
-    "bounds_thorough": "escapeUri 3 bytes; escapeJsString 3 bytes; truncate strings of <= 5 bytes with limits 0..8; changeNewlineToBr length 4",
+    "bounds_quick": "escapeUri: every string of <= 2 bytes (all 256 values); escapeJsString: <= 2 ASCII bytes (incl. controls) optionally with one of U+00E9/U+2028/U+2029/U+FEFF; truncate: valid UTF-8 strings of <= 3 bytes, limit 0..5, ellipsis default/true/false, and 5-byte strings with limit 4 and the ellipsis on; insertWordBreaks:k (k 1..3) on <= 3 ASCII bytes; changeNewlineToBr on every string of <= 4 bytes other than NUL (the regexp replacement `\\r\\n|\\r|\\n` is summarised by a Go model validated natively against package regexp); 5 chains of two directives through parser and renderer; |json on strings of <= 2 bytes of valid UTF-8 (all byte values), alone and inside lists/maps with booleans, null, undefined and small ints, against a reference JSON parser (encoding/json's string encoding is a Go model validated natively against json.Marshal; structure and key order are produced as encoding/json documents them)",
+    "bounds_thorough": "escapeUri 3 bytes; escapeJsString 3 bytes; truncate strings of <= 5 bytes with limits 0..8; changeNewlineToBr length 5",
     "outside": "|json of floats and of values outside the listed shapes (encoding/json itself works through reflection and is replaced by a model for strings plus the documented structure rules); the JavaScript counterparts in soyutils.js (no JavaScript semantics in the engine); bidi directives (unimplemented in soy); longer strings",
     "assumptions": ["refJSString (harness): reference decoder of ECMAScript string literal bodies, rejecting raw quotes, line terminators, control characters and < > &"],
     "level_text": "Bounded symbolic model checking of the Go directive implementations with the value's bytes symbolic; decodability is checked by independent reference decoders executed by the same engine. Only the Go half of the property is claimed.",
@@ -313,11 +321,13 @@ PROPS["C14"] = {
     "jobs": [
         Job("soyjs", "H_jsLiteral", "0..5,0..2,0", workers=16),
         Job("soyjs", "H_jsLiteral", "0..5,0..1,1..5", workers=16),
+        Job("soyjs", "H_jsLong", "0..5,0..4,0..5,0..3", workers=16, maxsteps=3000000, note="long text"),
+        Job("soyjs", "H_jsLong", "0..5,5..6,0..5,0..3", tier="thorough", workers=16, maxsteps=3000000, note="longer text"),
         Job("soyjs", "H_jsStruct", "0..2,false", workers=4),
         Job("soyjs", "H_jsStruct", "0..2,true", workers=4),
         Job("soyjs", "H_jsLiteral", "0..5,3,0", tier="thorough", workers=16),
     ],
-    "bounds_quick": "string emission at 6 sites (raw text, string literal, map literal key, css suffix, global string value, message text) with <= 2 symbolic ASCII bytes (all 128 values incl. quotes, backslash, controls, line terminators), and <= 1 byte combined with U+00E9, U+2028, U+2029, U+1F600 or the text </script>: the emitted token is one well-formed, script-safe literal that decodes to the original characters; structure of the generated files for 3 bundles x 2 formatters (one function per template under its qualified/exported name, balanced brackets outside literals, identifier-shaped variable names)",
+    "bounds_quick": "string emission at 6 sites (raw text, string literal, map literal key, css suffix, global string value, message text) with <= 2 symbolic ASCII bytes (all 128 values incl. quotes, backslash, controls, line terminators), and <= 1 byte combined with U+00E9, U+2028, U+2029, U+1F600 or the text </script>: the emitted token is one well-formed, script-safe literal (for appended text: one or several append statements, each literal valid UTF-8) that decodes to the original characters; long text: a padding that places a 2-, 3- or 4-byte character (U+00E9, U+20AC, U+2028, U+1F600) across or next to every power-of-two offset 64..1024 (thorough: ..4096) followed by a symbolic byte, at each site; structure of the generated files for 3 bundles x 2 formatters (one function per template under its qualified/exported name, balanced brackets outside literals, identifier-shaped variable names)",
     "bounds_thorough": "3 symbolic bytes per site",
     "outside": "full-script syntactic validity: needs a JavaScript parser inside the solver loop, which is not available; only literal tokens and the bracket/definition structure are decided. Whole-template generation with symbolic text through the parser.",
     "assumptions": ["refJSLiteral (harness): reference decoder of ECMAScript string literal bodies"],
@@ -346,15 +356,18 @@ PROPS["C07"] = {
     "jobs": [
         Job("soyhtml", "H_datarefs", "2,2,true,true", workers=16, timeout=900),
         Job("soyhtml", "H_datarefsLate", "1,2,1", workers=16, timeout=900),
+        Job("soyhtml", "H_datarefsBind", "2,3,false", workers=16, timeout=900),
+        Job("soyhtml", "H_datarefsBind", "2,3,true", workers=16, timeout=900),
+        Job("soyhtml", "H_datarefsBind", "2,4,false", tier="thorough", workers=16, timeout=3000),
+        Job("soyhtml", "H_datarefsBind", "2,4,true", tier="thorough", workers=16, timeout=3000),
         Job("soyhtml", "H_bothParamStyles", "0..2", workers=2),
-        Job("soyhtml", "H_datarefs", "1,3,true,true", tier="thorough", workers=16, timeout=3000),
         Job("soyhtml", "H_datarefs", "1,2,false,true", tier="thorough", workers=16, timeout=3000),
         Job("soyhtml", "H_datarefsLate", "1,2,2", tier="thorough", workers=16, timeout=3000),
         Job("soyhtml", "H_datarefs", "2,2,true,false", tier="thorough", workers=16, timeout=3000),
         Job("soyhtml", "H_datarefs", "2,2,false,false", tier="thorough", workers=16, timeout=3000),
     ],
-    "bounds_quick": "bundles generated around binding structure: a template with params l, m and (by configuration) a / optional b, a body of at most 2 generated nodes up to nesting depth 2 among print ($a,$b,$c,$i,$ij.x), let value / let content (names a, c, ij), if, foreach, call (existing callee with optional params, callee with a required param, missing callee; data none/all/$m; param k, undeclared zz, required q; value or content param) plus a fixed trailer; CheckDataRefs accepts exactly the bundles the declarative rule set accepts; for accepted bundles a render with every declared param supplied triggers the lookup observer (hook) only for optional params a callee was not passed; the same bundles followed or preceded by a template with an unused param (state carried from one template's check to the next); both-param-styles rule on 3 concrete templates",
-    "bounds_thorough": "3 generated nodes; the other param-declaration configurations",
+    "bounds_quick": "bundles generated around binding structure: a template with params l, m and (by configuration) a / optional b, a body of at most 2 generated nodes up to nesting depth 2 among print ($a,$b,$c,$i,$ij.x), let value / let content (names a, c, ij), if, foreach, call (existing callee with optional params, callee with a required param, missing callee; data none/all/$m; param k, undeclared zz, required q; value or content param) plus a fixed trailer; the soydoc of the callee with a required param lists it before or after the optional one (a choice); a second generator profile restricted to binding structure (print, let value, let content, if) with 3 nodes; CheckDataRefs accepts exactly the bundles the declarative rule set accepts; for accepted bundles a render with every declared param supplied triggers the lookup observer (hook) only for optional params a callee was not passed; the same bundles followed or preceded by a template with an unused param (state carried from one template's check to the next); both-param-styles rule on 3 concrete templates",
+    "bounds_thorough": "the other param-declaration configurations; binding-structure profile with 4 nodes. (3 nodes of the full grammar were tried: > 2.4 million paths, not finished in 50 min, not registered.)",
     "outside": "bundles beyond the size bound; {msg} bodies; several files/namespaces (the rules are per template and callee lookup is by qualified name)",
     "assumptions": ["c07Check (harness) is a declarative transcription of the rules in the property statement: references resolve to the innermost enclosing let defined earlier, a loop variable inside its loop, a declared param, or $ij; data=\"all\" forwards params (never lets) and counts as their use"],
     "level_text": "Bounded model checking over programs: bundles are chosen through solver-visible choices over a grammar centred on binding structure (exhaustive within the size bound), compiled by the real parser, registry and checker, and compared with a declarative reference of the rules; the consequence for rendering is observed through a build-tagged hook in scope.lookup.",
@@ -364,12 +377,12 @@ PROPS["C07"] = {
 # ---------------------------------------------------------------- C11
 PROPS["C11"] = {
     "jobs": [
-        Job("soymsg/pomsg", "H_roundtrip", "0..7,0..2,0..2", workers=16, timeout=900),
+        Job("soymsg/pomsg", "H_roundtrip", "0..7,0..3,0..2", workers=16, timeout=900),
         Job("soymsg/pomsg", "H_plural", "1..3", workers=8, timeout=600),
         Job("soymsg/pomsg", "H_catalogue", "0..3", workers=8, timeout=600),
         Job("soymsg/pomsg", "H_sameID", "0..2", workers=8, timeout=600),
     ],
-    "bounds": "8 messages (text only; text + placeholders; repeated equal expressions; html tags; two expressions that differ only in parenthesisation; colliding placeholder base names; one expression printed with different directives; two link tags with different attributes) in 3 contexts (plain, inside a foreach, inside a called template) x 3 catalogues built with the real extraction functions (pomsg.Validate/Msgid/MsgidPlural -> newMessage -> soymsg.Parts): identity, parts reversed, message absent; data: symbolic int in [0,2] and a symbolic byte from {a,b,c,<}; pairs of messages that share an id (same text and placeholder names, different expressions) in one template; a three-message bundle (plural + two plain) loaded through the real newBundle from PO entries in 4 orders; plural message with {case 1}+{default} under catalogues with 1, 2 and 3 plural forms where the bundle's PluralCase returns an arbitrary index below the number of forms, or the English rule",
+    "bounds": "8 messages (text only; text + placeholders; repeated equal expressions; html tags; two expressions that differ only in parenthesisation; colliding placeholder base names; one expression printed with different directives; two link tags with different attributes) in 4 contexts (plain, inside a foreach, inside the content block of a call param, inside a called template) x 3 catalogues built with the real extraction functions (pomsg.Validate/Msgid/MsgidPlural -> newMessage -> soymsg.Parts): identity, parts reversed, message absent; data: symbolic int in [0,2] and a symbolic byte from {a,b,c,<}; pairs of messages that share an id (same text and placeholder names, different expressions) in one template; a three-message bundle (plural + two plain) loaded through the real newBundle from PO entries in 4 orders; plural message with {case 1}+{default} under catalogues with 1, 2 and 3 plural forms where the bundle's PluralCase returns an arbitrary index below the number of forms, or the English rule",
     "outside": "PO text syntax and file loading (robfig/gettext/po), locale fallback (x/text/language), the xgettext-soy main wrapper (its extract function is three calls which the harness mirrors), the JavaScript backend (no JS semantics in the engine); messages outside the dictionary; soymsg.Parts runs its regexp natively on concrete text",
     "assumptions": ["the expected value of a placeholder is what the real renderer prints for a template consisting of that expression alone (the evaluator itself is checked under C01)"],
     "level_text": "Bounded symbolic model checking of the extraction -> catalogue -> render pipeline for a message dictionary with symbolic data and a symbolic plural-form index: translated output is compared with the composition of the parts' own renderings.",
